@@ -403,6 +403,11 @@ func (c *Ctx) finish(runErr error) int {
 	}
 	sort.Strings(rk)
 	fmt.Println("  rule instances:", strings.Join(rk, " "))
+	if os.Getenv("GTVERIF_VERBOSE") != "" {
+		for _, o := range c.Obl {
+			fmt.Printf("  . %s:%d [%s] %s: %s\n", o.File, o.Line, o.Key, o.Verdict, o.Detail)
+		}
+	}
 	for _, l := range lines {
 		fmt.Println(l)
 	}
